@@ -127,12 +127,21 @@ CLAIMED = {
   'design_ref': 'DESIGN.md section 5 C10',
   'note': 'Trusted: Verus/Z3; uninterpreted flatten_name_parts / Name::from / flatten_keys; HashSet<String> key model. Not decided: every grammar position where a name may occur (parser), termination.',
  },
+ 'C19': {
+  'text': 'Partial. Verus proves on the real bodies of the recognizer crate: (no panic) every canvas primitive (move_to, search, search_up/down/left/right, region / rectangle / body / crossing / information item recognition, '
+          'text_from_rect, layer preparation, make_grid) and every plane accessor stays inside the rectangular grid / the plane for all contents - no index out of bounds, no arithmetic overflow, termination - under stated '
+          'preconditions; (as drawn) a directional search returns the nearest searched character reachable over allowed characters only; recognised rectangles are closed and lie inside the grid; the TEXT layer is never modified '
+          'after scanning; crossings are the first cells of their kind; the hit policy is the marker in the top-left (rules as rows) or bottom-left (rules as columns) region; rule numbers are exactly 1..n below / after the output '
+          'double line and n is the rule count; orientation follows marker and rule number placement.',
+  'design_ref': 'DESIGN.md section 5 C19',
+  'note': 'Trusted: Verus/Z3; uninterpreted HitPolicy::try_from / usize::from_str; rewrites R17-R19, R1m. Not decided: Canvas::plane, recognize_horizontal_table, builder::build, canvas::scan text loop, equivalence with the XML table; '
+          'panic freedom is per function under preconditions (A-plane), not end to end.',
+ },
 }
 NOT_APPLICABLE = {
  'C02': TODO,
  'C04': 'the property is about dyn Fn closures stored in RwLock<HashMap> registries calling one another along the requirement graph; no first-order function carries it, Verus has no support for dyn Fn fields / std RwLock guards, Kani cannot bound the graph (DESIGN.md section 6)',
 
  'C07': 'deciding code is str/format!/C decNumber string conversion (scientific_to_plain, decQuadToString); Verus has no specs for these str APIs and Kani/CBMC did not finish a 3-character instance in 15 min (DESIGN.md section 6)',
- 'C19': TODO,
  'C20': 'a schedule property: Kani has no thread support and Verus would need the code rewritten onto its own permission/atomic types; Send+Sync is checked by rustc, not by this family (DESIGN.md section 6)',
 }
